@@ -56,6 +56,14 @@ CHECKS = {
          "DESIGN.md §3 C13",
          "For every block shape (1-3 slices, thorough 4; empty to full slices; optimistic handover) every interleaving across slices of the delivery stages 0/1/31/32/33/40 shreds (three index orders), one re-delivery per slice and each alternative signed shred placed anywhere is executed: exactly one FirstShred; for clean histories exactly one Block in the step the last needed shred arrives, with the double-Merkle hash, the leader's parent (in an earlier slot) and transactions, after which every shred / slice root / double-Merkle proof is served byte-exactly; once a contradiction is revealed (conflicting slice, contradictory last markers in any order) exactly one InvalidBlock and never a Block afterwards; consistently signed malformed blocks (undecodable data, no parent, two switches, switch to itself, parent in the same or a later slot) give InvalidBlock and no Block; the leader's add_own_slice path stores the same block and shreds as a follower.",
          "Delivery within a slice is staged (1, 31, 32, 33, 40 shreds) rather than shred-by-shred; subsets of shreds are C11's subject."),
+ "C19": ("exploration", "exhaustive enumeration of message variants / validator counts 1..=2048 / shred sizes through the real encoder and network decoder, plus the byte-substitution / truncation neighbourhood of valid encodings and all strings of length <= 2", "E3",
+         "DESIGN.md §3 C19",
+         "Every vote kind with boundary fields, every certificate type for every validator count 1..=2048 (signers: first, last, every 64-bit word boundary, all), shreds and shred-carrying repair responses over the payload sizes, all repair request/response variants and transactions must round-trip to identical bytes (and equal values), reject one trailing byte, reject slice index >= 1024, shred index >= 64 and bitmasks over 2048 bits or longer than their words, and fit 1500 bytes; for base messages of each type every single-byte substitution with 00/01/7f/80/ff, every truncation and one-byte extension, and all byte strings of length <= 2 must never panic, and whatever decodes must re-encode to a fixed point.",
+         "'Arbitrary byte strings' is bounded to the neighbourhood of valid encodings and to strings of length <= 2; certificates for large n are built from one key (validity of signatures is C09's subject)."),
+ "C20": ("model_checking", "explicit-state BFS over all insert/remove/fork/switch sequences on the real copy-on-write State closed under fork contents, with a BTreeMap reference, canonicity assertion and recomputed LtHash in every state; exhaustive enumeration of small block trees for DummyExecution", "E2",
+         "DESIGN.md §3 C20",
+         "All operation sequences over adversarially clustered keys (sharing 0/1/2/10/25/51 trie levels, keys differing only in low bits of a byte straddling a level boundary) with two values and up to three forks are explored to closure: in every state every fork answers get/len/ordered iteration like its BTreeMap reference, equals a state rebuilt from its contents in sorted and reverse order, other forks are untouched, insert/remove return the reference's old value, and the incrementally maintained LtHash equals the one recomputed from contents. DummyExecution: for all block trees of up to 3 (4) blocks, parents none/unknown/earlier, transaction sequences over two letters, Known/Pending ids, split and interleaved execution the reported commitment equals the fold of the parent's commitment (or parent hash) over the transactions.",
+         "States are merged on the tuple of fork contents, justified by the canonicity assertion evaluated in every state; key alphabet of 8 (9) keys, 2 values."),
 }
 
 NOT_YET = {}
